@@ -249,7 +249,7 @@ func graph(path string) {
 			}
 			return false
 		}
-		bad := false
+		bad, obsDead := false, false
 		mm := func(si int, kind, what string, want, got interface{}) {
 			if kind == "drift" {
 				// I-level differences are recorded (a few), never stop the replay
@@ -338,19 +338,26 @@ func graph(path string) {
 			if bad || status != "" {
 				break
 			}
-			// ---- I-level projection: Events(), IsEmpty(), next/prev of every entry (incl. stale ones)
+			// ---- I-level projection: Events(), next/prev of every entry (incl. stale ones)
 			var wm waiter.EventMask
 			regl := vh.List(want["reg"])
 			for _, r := range regl {
 				wm |= maskOf(vh.Strs(vh.Map(r)["m"]))
 			}
+			// Events() takes the read lock: run it guarded, so that a lock leaked by the code under
+			// test shows up at the next operation of the path (P-level) and not as a dead driver.
+			// (IsEmpty() takes the write lock - a parked writer would change what later readers do -
+			// and is therefore not used as an observation.)
 			if cyclic() {
 				mm(si, "drift", "next pointers form a cycle", nil, nil)
-			} else if got := q.Events(); got != wm {
-				mm(si, "drift", "Queue.Events()", int(wm), int(got))
-			}
-			if got := q.IsEmpty(); got != (len(regl) == 0) {
-				mm(si, "drift", "Queue.IsEmpty()", len(regl) == 0, got)
+			} else if !obsDead {
+				var got waiter.EventMask
+				if status, _ := runOp(func() { got = q.Events() }, 400); status != "" {
+					obsDead = true
+					mm(si, "drift", "Queue.Events() did not return ("+status+")", nil, nil)
+				} else if got != wm {
+					mm(si, "drift", "Queue.Events()", int(wm), int(got))
+				}
 			}
 			wn, wp := vh.Map(want["next"]), vh.Map(want["prev"])
 			for _, n := range names {
